@@ -1,4 +1,4 @@
-import I2N.Lemmas.TravReady
+import I2N.Lemmas.TravStates
 import I2N.Model.TravMon
 /-!
 # C01 — Every test starts only with its required object states available
@@ -278,5 +278,140 @@ theorem owner_names_needed :
     ((runSched exBad 100 (initState exBad 2 [] []) [(0, exNoOut), (0, exPass)]).nd 0).finished = some 0 ∧
     (exBad.node 0).owner = some 1 :=
   ⟨by decide, by decide, by decide, reachH_runSched exBad 2 [] [] 100 _ _ ReachH.init, by decide +kernel, by decide⟩
+
+/-! ## the semantic core in a restricted setting: `start_has_states_partial`
+
+`ReachS` (`Lemmas/TravStates.lean`) is `ReachH` with steps of workers of the run and positive fuel (what the identifier
+invariant of C03 needs).  Hypotheses besides those above, all decidable, each excluding a known finding or a gap of
+the statement: `SemHyp g` = `FullScope` (every parsed node has the `global` shape and all four pool scopes — excludes
+finding F10, witness `f10_swarm_scope_disabled`), `PlainNodes` (parsed nodes are neither shared root, dry run, clone
+source nor object root: the creation of objects and cloning are not covered), `NoRemoval` (no `f.` unset mode,
+`pool_filter` ∈ {reuse, block}: `sync_states` never touches the store — removal is C05's concern), `ProducerSets` (a
+parsed parent sets what the child gets through the edge — C07's concern), `UniqueProducer` (a state is set by one class
+only: otherwise a worker skips a producer because it holds the state from another class and nobody is told its pool),
+`SetsClass` (copies of a class set the same states), `OwnersReal` (owners are workers of the run); `InitShared store`
+(initial states are in the shared pool only — excludes finding F5, witness `f5_state_only_in_peer_pool`);
+`NamesInj g`, `PreNamesFresh g` (C03's hypotheses for distinct result identifiers: the record a worker reads is the
+one its own execution reported — otherwise a stale PASS could be read without a production).  Retries are NOT excluded. -/
+
+/-- Whenever a `resume` step of worker `w` emits a `start` event, it is the start of the test proper of a node `n` that
+`w` owns, told the locations `locs` = the `get_location` entries of `n` in the state `sd` in which the start was
+decided, and for every state `vs` that `n` gets through a setup edge `e` (visible then) from a parsed parent relevant to
+`w`: `vs` is in `w`'s own pool, or in the shared pool, or in the pool of a worker `v` whose location is contained in the
+entry of `vs`'s vm in `locs` and which `w` may use, or the parent's class has a result that did not pass ("excepted").
+
+Partial w.r.t. the full C01 statement in exactly the hypotheses listed above (and the states obtained through flat
+parents / without producer edge, e.g. of permanent objects, are not covered). -/
+theorem start_has_states_partial (g : Graph) (hwf : graphWF g = true) (hroot : (g.node g.root).flat = true)
+    (hO : OwnerNames g) (hF : FlatClass g) (hy : SemHyp g) (hN : NamesInj g) (hP : PreNamesFresh g)
+    {ncls : Nat} {store : Store} (hI : InitShared store) {H0 : List Nat} {s : State}
+    (hr : ReachS g ncls store H0 s) (w : Nat) (out : Outcome) (fuel : Nat)
+    (wid cname uid : String) (locs : List (String × String)) (k : Nat)
+    (he : Event.start wid cname uid locs k ∈ (resume g s w out fuel).2) :
+    ∃ n sd hid, cname = clsName g n .plain ∧ locs = (sd.nd n).getLoc ∧ n < g.nodes.length ∧ (g.node n).owner = some w ∧
+      (∀ h ∈ sd.hidden, h ∈ hid) ∧ (∀ h ∈ hid, h ∈ H0) ∧ Trv g H0 sd ∧
+      ∀ e ∈ ((visH g hid).node n).setup, (g.node e.1).flat = false → relevant g w e.1 = true →
+        ∀ vs ∈ (g.node n).gets, vs.1 ∈ e.2 →
+          vs ∈ storeGet sd.store (g.worker w).id ∨ vs ∈ storeGet sd.store "shared" ∨
+          (∃ v, vs ∈ storeGet sd.store (g.worker v).id ∧ HasLoc locs vs.1 (workerLoc g v) ∧ mayUse g n w v = true) ∨
+          (∃ r ∈ sharedResults g sd e.1, r.status ≠ "PASS") := by
+  have sc : SemCtx g store := ⟨hy, hO, hF, hI⟩
+  have hw := GraphWF.of_bool hwf
+  obtain ⟨n, sd, hid, h1, h2, hn, hidn, hfl, h3, h4, td, _, hav⟩ :=
+    (resume_sem g H0 hw hroot sc s w out fuel (hr.reachR.basic hwf) (hr.reachR.uids hwf hN hP)
+      (hr.reachH.trv hw hroot hO.uniq) (hr.sem hwf hroot sc hN hP)).2 _ he wid cname uid locs k rfl
+  refine ⟨n, sd, hid, h1, h2, hn, (hO w n hn hfl).mp hidn, h3, h4, td, fun e hemem hfp hrel vs hvs hvm => ?_⟩
+  rcases hav e hemem hfp hrel vs hvs hvm with h | ⟨v, hv, hl⟩ | h
+  · exact Or.inr (Or.inl h)
+  · exact Or.inr (Or.inr (Or.inl ⟨v, hv, by rw [h2]; exact hl, mayUse_full hy.fullScope hn hfl w v⟩))
+  · exact Or.inr (Or.inr (Or.inr h))
+
+/-- … and the invariant behind it, for every reachable state: (i) what is in a pool was there initially or was produced
+by the pool's worker on one of its own parsed copies, which has a result; (ii) the states set by a traversed parsed
+copy are sourced — shared pool, pool of a worker `pull_locations` names for the class, or a non-passing result. -/
+theorem states_sourced (g : Graph) (hwf : graphWF g = true) (hroot : (g.node g.root).flat = true)
+    (hO : OwnerNames g) (hF : FlatClass g) (hy : SemHyp g) (hN : NamesInj g) (hP : PreNamesFresh g)
+    {ncls : Nat} {store : Store} (hI : InitShared store) {H0 : List Nat} {s : State} (hr : ReachS g ncls store H0 s) :
+    Sem g store s :=
+  hr.sem hwf hroot ⟨hy, hO, hF, hI⟩ hN hP
+
+/-- … on a pre-parsed graph (nothing hidden initially): for all setup edges of `n`. -/
+theorem start_has_states_partial_eager (g : Graph) (hwf : graphWF g = true) (hroot : (g.node g.root).flat = true)
+    (hO : OwnerNames g) (hF : FlatClass g) (hy : SemHyp g) (hN : NamesInj g) (hP : PreNamesFresh g)
+    {ncls : Nat} {store : Store} (hI : InitShared store) {s : State}
+    (hr : ReachS g ncls store [] s) (w : Nat) (out : Outcome) (fuel : Nat)
+    (wid cname uid : String) (locs : List (String × String)) (k : Nat)
+    (he : Event.start wid cname uid locs k ∈ (resume g s w out fuel).2) :
+    ∃ n sd, cname = clsName g n .plain ∧ locs = (sd.nd n).getLoc ∧ n < g.nodes.length ∧ (g.node n).owner = some w ∧
+      Trv g [] sd ∧
+      ∀ e ∈ (g.node n).setup, (g.node e.1).flat = false → relevant g w e.1 = true →
+        ∀ vs ∈ (g.node n).gets, vs.1 ∈ e.2 →
+          vs ∈ storeGet sd.store (g.worker w).id ∨ vs ∈ storeGet sd.store "shared" ∨
+          (∃ v, vs ∈ storeGet sd.store (g.worker v).id ∧ HasLoc locs vs.1 (workerLoc g v) ∧ mayUse g n w v = true) ∨
+          (∃ r ∈ sharedResults g sd e.1, r.status ≠ "PASS") := by
+  obtain ⟨n, sd, hid, h1, h2, hn, ho, _, h4, td, hav⟩ :=
+    start_has_states_partial g hwf hroot hO hF hy hN hP hI hr w out fuel wid cname uid locs k he
+  have : hid = [] := by
+    cases hid with
+    | nil => rfl
+    | cons a r => exact absurd (h4 a List.mem_cons_self) (by simp)
+  subst this
+  exact ⟨n, sd, h1, h2, hn, ho, td, hav⟩
+
+/-! ### non-vacuity and the two findings the hypotheses exclude (instances `exSt…` of `Lemmas/TravStates.lean`:
+test `a` sets `vm1/a`, net2's test `b` gets it; net1 has a copy of `a` only) -/
+
+theorem exSt_hyps : graphWF exSt = true ∧ (exSt.node exSt.root).flat = true ∧ OwnerNames exSt ∧ FlatClass exSt ∧ SemHyp exSt ∧
+    NamesInj exSt ∧ PreNamesFresh exSt ∧ InitShared ([] : Store) :=
+  ⟨by decide +kernel, by decide +kernel, ownerNamesB_sound (by decide +kernel), by decide +kernel,
+    ⟨by decide +kernel, by decide +kernel, by decide +kernel, by decide +kernel, by decide +kernel, by decide +kernel,
+      by decide +kernel⟩,
+    namesInjB_sound (by decide +kernel), preFreshB_sound (by decide +kernel), by decide +kernel⟩
+
+example : ReachS exSt 3 [] [] exSt2 :=
+  runSched_reachS exSt 3 [] [] 100 (by decide) _ (by decide +kernel) _ ReachS.init
+
+set_option maxRecDepth 100000 in
+/-- net1 ran `a` and passed; net2 skips its copy of `a` (the class is finished) and starts `b`, told net1's pool, where
+the state is: the third disjunct of `start_has_states_partial` -/
+example : Event.start "net2" "1" "2a1" [("vm1", ":/pool/shared net1:/pool/swarm")] 1 ∈ (resume exSt exSt2 1 exNoOut 100).2 ∧
+    ("vm1", "a") ∈ storeGet (resume exSt exSt2 1 exNoOut 100).1.store "net1" ∧
+    strIn (workerLoc exSt 0) ":/pool/shared net1:/pool/swarm" = true := by
+  decide +kernel
+
+example := start_has_states_partial_eager exSt exSt_hyps.1 exSt_hyps.2.1 exSt_hyps.2.2.1 exSt_hyps.2.2.2.1
+  exSt_hyps.2.2.2.2.1 exSt_hyps.2.2.2.2.2.1 exSt_hyps.2.2.2.2.2.2.1 exSt_hyps.2.2.2.2.2.2.2
+  (runSched_reachS exSt 3 [] [] 100 (by decide) [(0, exNoOut), (0, exPass)] (by decide +kernel) _ ReachS.init) 1 exNoOut 100
+
+set_option maxRecDepth 100000 in
+/-- Finding F5 (why `InitShared` is needed): the state exists initially in net1's own pool only.  net1 finds it there
+and skips `a` without a result; net2 skips its copy (the class counts as finished, no scan) and starts `b` told the
+shared pool only — the state is neither in its own pool, nor in the shared pool, nor is any pool named, nor has the
+producing class any result: every disjunct of `start_has_states_partial` fails. -/
+theorem f5_state_only_in_peer_pool :
+    ¬ InitShared exStore5 ∧
+    ReachS exSt 3 exStore5 [] exSt5_1 ∧
+    Event.start "net2" "1" "2a1" [("vm1", ":/pool/shared")] 1 ∈ (resume exSt exSt5_1 1 exNoOut 100).2 ∧
+    ("vm1", "a") ∉ storeGet (resume exSt exSt5_1 1 exNoOut 100).1.store "net2" ∧
+    ("vm1", "a") ∉ storeGet (resume exSt exSt5_1 1 exNoOut 100).1.store "shared" ∧
+    strIn (workerLoc exSt 0) ":/pool/shared" = false ∧
+    sharedResults exSt (resume exSt exSt5_1 1 exNoOut 100).1 1 = [] :=
+  ⟨by decide +kernel, runSched_reachS exSt 3 exStore5 [] 100 (by decide) _ (by decide +kernel) _ ReachS.init,
+    by decide +kernel⟩
+
+set_option maxRecDepth 100000 in
+/-- Finding F10 (why `FullScope` is needed): with the `swarm` scope disabled net2 is still told net1's pool — the only
+place where the state is — which it may not use; the producing class has passed, so nothing excepts the start. -/
+theorem f10_swarm_scope_disabled :
+    ¬ FullScope exSt10 ∧
+    ReachS exSt10 3 [] [] exSt10_2 ∧
+    Event.start "net2" "1" "2a1" [("vm1", ":/pool/shared net1:/pool/swarm")] 1 ∈ (resume exSt10 exSt10_2 1 exNoOut 100).2 ∧
+    ("vm1", "a") ∉ storeGet (resume exSt10 exSt10_2 1 exNoOut 100).1.store "net2" ∧
+    ("vm1", "a") ∉ storeGet (resume exSt10 exSt10_2 1 exNoOut 100).1.store "shared" ∧
+    ("vm1", "a") ∈ storeGet (resume exSt10 exSt10_2 1 exNoOut 100).1.store "net1" ∧
+    mayUse exSt10 2 1 0 = false ∧
+    (sharedResults exSt10 (resume exSt10 exSt10_2 1 exNoOut 100).1 1).all (fun r => r.status == "PASS") = true :=
+  ⟨by decide +kernel, runSched_reachS exSt10 3 [] [] 100 (by decide) _ (by decide +kernel) _ ReachS.init,
+    by decide +kernel⟩
 
 end I2N.Props.C01
